@@ -87,8 +87,8 @@ def seeded(depth, cfg="full-dbg", **kw):
     return R(cfg, "dyn", 3, 4, depth=depth, **a)
 
 
-seed_q = [seeded(2), seeded(1, cfg="nofin-rel")]
-seed_t = [seeded(4, cfg="full-rel", max_seconds=BIG), seeded(3), seeded(3, cfg="nofin-rel"), seeded(3, cfg="full-rel", fin_menu="0,1,13", drop_menu="0,1,2", max_seconds=MID),
+seed_q = [seeded(2), seeded(1, cfg="nofin-rel"), seeded(1, seed_family="g3b")]
+seed_t = [seeded(4, cfg="full-rel", max_seconds=BIG), seeded(3), seeded(3, cfg="nofin-rel"), seeded(3, cfg="full-rel", seed_family="g3b", max_seconds=MID), seeded(3, cfg="full-rel", fin_menu="0,1,13", drop_menu="0,1,2", max_seconds=MID),
           seeded(2, cfg="full-rel", c=1, action_menu="1,3,4", max_seconds=MID)]
 
 # ---- C01 no premature reclamation ---------------------------------------------------------------------------
@@ -201,6 +201,12 @@ plan("C12", Q, [
     fin_q(FIN_PHASE, depth=12), R("full-dbg", "dtor", 2, 3, depth=12, drop_menu=DROP_PHASE),
     R("full-dbg", "cleaner", 2, 3, depth=8, action_menu=ACT_PHASE),
     R("full-dbg", "autofin", 3, 3, depth=8), R("full-dbg", "core", 2, 3),
+    # callbacks nested two levels deep by reference counting (a finalizer inside another object's drop glue, a
+    # destructor inside a finalizer that releases the last reference, a finalizer inside a cleaning action): three objects
+    seeded(1, cfg="full-rel", seed_family="g3b", fin_menu="0,10,11", drop_menu="0,3,4"),
+    R("full-rel", "fin", 3, 3, depth=8, fin_menu="0,10,11"),
+    R("full-rel", "dtor", 3, 3, depth=9, fin_menu="0,4", drop_menu="0,3,4"),
+    R("full-rel", "cleaner", 3, 3, depth=8, action_menu="0,1", fin_menu="0,11"),
 ])
 plan("C12", T, [
     fin_t(FIN_PHASE, depth=16), R("full-rel", "dtor", 2, 3, depth=16, drop_menu=DROP_PHASE, max_seconds=MID), fin_t(FIN_ALL, depth=11),
@@ -218,7 +224,8 @@ plan("C14", Q, cyclic_q + [R("full-dbg", "cyclic", 3, 3, depth=6, faults=1), R("
 plan("C14", T, cyclic_t + [R("full-rel", "fin", 3, 3, depth=12, fin_menu="0,1,17", max_seconds=MID), R("full-rel", "cyclic", 3, 3, depth=8, faults=1, max_seconds=MID), R("nofin-rel", "cyclic", 3, 3, depth=8, faults=1, max_seconds=MID)])
 
 # ---- C16 saturation -----------------------------------------------------------------------------------------------------------
-plan("C16", Q, [R("full-dbg", "sat", 1, 2, depth=6, sat_k=1), R("full-rel", "sat", 2, 2, depth=6, sat_k=1), R("full-rel", "sat", 1, 2, depth=8, sat_k=0, w=1, fin_menu="0,1")])
+plan("C16", Q, [R("full-dbg", "sat", 1, 2, depth=6, sat_k=1), R("full-rel", "sat", 2, 2, depth=6, sat_k=1), R("full-rel", "sat", 1, 2, depth=8, sat_k=0, w=1, fin_menu="0,1"),
+                 R("full-rel", "sat", 2, 2, depth=7, sat_k=0, w=1)])       # 16382 references all owned by a traced bag of another object
 plan("C16", T, [R("full-rel", "sat", 1, 2, depth=11, sat_k=1, w=1, fin_menu="0,1", max_seconds=MID), R("full-dbg", "sat", 1, 2, depth=8, sat_k=2), R("full-rel", "sat", 2, 2, depth=8, sat_k=2, max_seconds=MID), R("nofin-rel", "sat", 1, 2, depth=7, sat_k=1)])
 
 # ---- C20a address stability / ptr_eq (forwarding impls: separate enumeration engine) --------------------------------------------
